@@ -7,7 +7,7 @@ LEVEL = "proof"
 RULE = ("the LTS theorems quantify over all interleavings, capacities and child policies; the tie runs the three real binaries "
         "(PV_TRACE hooks on) with scripted children {eager, blocks of 2/64 lines, read-everything-first} on inputs of "
         "{0,1,2,4095,4096,4097} lines, >64 KiB and 1 MiB totals and single lines larger than both pipes (cache), under varied "
-        "scheduling (nice); each run must finish within the timeout with complete ordered output, and its recorded event trace "
+        "scheduling (nice), with long runs of repeated lines (cache) and with stdin stalling around the queue-page multiples; each run must finish within the timeout with complete ordered output, and its recorded event trace "
         "(enqueue/write/poison/close, consume/read/out) must be accepted by the visible-event automaton that the LTS refines; "
         "non-trivial = distinct (tool, child policy, input shape)")
 ASSUMPTIONS = ["real system ⊆ LTS is validated on the visible events only (child and pipe steps are not observable)",
@@ -22,6 +22,8 @@ def inputs(ctx, tool):
         out.append((f"{n} lines", [b"l%d w" % (i % 700) for i in range(n)]))
     out.append(("300 KiB", [bytes(rng.choice(b"abcdefg ") for _ in range(rng.randrange(0, 200))) for _ in range(3000)]))
     if tool == "cache":
+        out.append(("70001 repeats of one line", [b"x"] * 70001))
+        out.append(("5000 distinct lines then 140000 repeats", [b"row %d" % i for i in range(5000)] + [b"row %d" % (i % 100) for i in range(140000)]))
         out.append(("1 MiB line", [b"x" * (1 << 20), b"y", b"x" * (1 << 20)]))
         out.append(("200 KiB lines", [b"%d" % i + b"z" * 200000 for i in range(4)]))
     if ctx.tier != "quick":
@@ -41,7 +43,7 @@ def run(ctx):
             else:
                 data = b"".join(l + b"\n" for l in lines)
                 want = data
-            for pol in (policies if ctx.tier != "quick" else rng.sample(policies, 2) + [["readall"]]):
+            for pol in ([["eager"]] if "repeats" in label else policies if ctx.tier != "quick" else rng.sample(policies, 2) + [["readall"]]):
                 st, out, err, trace = wrappers.run_traced(ctx, base, data, pol, timeout=60, nice=rng.choice([None, None, 10]))
                 ctx.count("wrapper-run", 1, [(tool, tuple(pol), label)])
                 if st != 0 or out != want:
@@ -59,6 +61,17 @@ def run(ctx):
                                            "events_head": ev[:60], "correspondence": "PV_TRACE event log vs PV.Wrapper.astep (refined by the LTS)"},
                                            no_input=True, summary=f"{tool}: recorded event trace not accepted by the wrapper automaton: {r}")
                     break
+    # paced input: the producer of stdin stalls around the queue-page multiples so that the output thread is fully caught up there
+    for tool, base in (("cache", ["cache"]), ("foldfilter", ["foldfilter", "-w", "30"]), ("b64filter", ["b64filter"])):
+        data, pauses = wrappers.paced_corpus(tool)
+        st, out, err, trace = wrappers.run_traced(ctx, base, data, ["eager"], timeout=120, pauses=pauses)
+        ctx.count("wrapper-paced", 1, [(tool, len(data))])
+        if st != 0 or out != data:
+            what = "did not terminate (deadlock)" if st == "HANG" else f"status {st}, {len(out)} of {len(data)} output bytes"
+            pvlib.report_violation(ctx, f"wrapper-paced:{tool}", {
+                "argv": base + ["python3", "harness/children/child.py", "eager"], "stdin_hex": hx(data)[:400000], "stdin_stalls_at_byte_offsets": pauses, "status": st,
+                "stderr": err.decode(errors="replace")[-300:]},
+                summary=f"{tool} with an identity child and stdin stalling around the queue-page multiples: {what}")
 
 
 def perturbed(ctx):
@@ -89,6 +102,11 @@ def replay(ctx, rp):
         env["ASAN_OPTIONS"] += ":verify_asan_link_order=0"
         st, out, err = pvlib.run_tool([ctx.bin(rp["argv"][0])] + rp["argv"][1:], pvlib.unhx(rp["stdin_hex"]), env=env, timeout=40)
         print("status", st, "stdout", out, err[-300:])
+        return
+    if "argv" in rp and "stdin_stalls_at_byte_offsets" in rp:
+        i = rp["argv"].index("python3")
+        st, out, err, trace = wrappers.run_traced(ctx, rp["argv"][:i], pvlib.unhx(rp["stdin_hex"]), rp["argv"][i + 2:], timeout=120, pauses=rp["stdin_stalls_at_byte_offsets"])
+        print("status", st, "stdout bytes", len(out), err[-300:])
         return
     if "argv" in rp:
         argv = rp["argv"]
